@@ -161,6 +161,14 @@ def _origins(b, l, projs, depth, seen):
     for d in ds:
         if d[1] == 'call':
             c = b.call_at(d[0])
+            els = _iterated_elements(b, c, projs)
+            if els is not None:
+                # `for x in &coll` where coll was collected from a spliced adaptor chain: x is one of the
+                # yielded elements
+                for o in els:
+                    out |= _origins(b, o['place']['l'], [e for e in o['place']['p'] if e != 'deref'] + projs[2:],
+                                    depth + 1, seen)
+                continue
             out.add(c if not projs else ('proj', c, tuple(str(e.get('downcast', e.get('f'))) if isinstance(e, dict)
                                                            else str(e) for e in projs)))
             continue
@@ -195,6 +203,61 @@ def _origins(b, l, projs, depth, seen):
         else:
             out.add('other')
     return out
+
+
+def _single_source(b, l, pats):
+    """the local that local `l` (an iterator / a reference) was made from: follows copies, refs and the
+    calls in `pats`; None if ambiguous"""
+    for _ in range(8):
+        ds = [d for d in b.defs.get(l, []) if d[1] == 'call' or not d[2]['lhs']['p']]
+        if len(ds) != 1:
+            return l
+        d = ds[0]
+        if d[1] == 'call':
+            c = b.call_at(d[0])
+            if c.is_(*pats) and c.args and c.args[0].get('k') in ('copy', 'move') and \
+                    not [e for e in c.args[0]['place']['p'] if e != 'deref']:
+                l = c.args[0]['place']['l']
+                continue
+            return l
+        rv = d[2]['rv']
+        if rv['k'] in ('use', 'cast') and rv['op'].get('k') in ('copy', 'move') and \
+                not [e for e in rv['op']['place']['p'] if e != 'deref']:
+            l = rv['op']['place']['l']
+        elif rv['k'] == 'ref' and not [e for e in rv['place']['p'] if e != 'deref']:
+            l = rv['place']['l']
+        else:
+            return l
+    return l
+
+
+def _iterated_elements(b, c, projs):
+    """c = Iterator::next and projs selects the `Some` payload: if the iterator walks a local collection
+    that was built by a `collect()` of a normalised chain (A12: `desugar::yield(&mut out, elem)`), the
+    element operands; otherwise None."""
+    if not c.is_('Iterator::next') or len(projs) < 2 or not (isinstance(projs[0], dict) and projs[0].get('downcast') == 'Some'):
+        return None
+    if not c.args or c.args[0].get('k') not in ('copy', 'move'):
+        return None
+    coll = _single_source(b, c.args[0]['place']['l'],
+                          ('IntoIterator::into_iter', 'slice::iter', 'Vec::iter', 'VecDeque::iter', 'Deref::deref'))
+    ds = [d for d in b.defs.get(coll, []) if d[1] == 'call' or not d[2]['lhs']['p']]
+    if len(ds) != 1 or ds[0][1] != 'call':
+        return None
+    col = b.call_at(ds[0][0])
+    if not col.is_('Iterator::collect', 'FromIterator::from_iter') or not col.args or \
+            col.args[0].get('k') not in ('copy', 'move'):
+        return None
+    src = col.args[0]['place']['l']
+    els = []
+    for y in b.calls_to('desugar::yield'):
+        r = y.args[0]
+        if r.get('k') not in ('copy', 'move'):
+            continue
+        rs = [d for d in b.defs.get(r['place']['l'], []) if d[1] != 'call' and d[2]['rv']['k'] == 'ref']
+        if any(d[2]['rv']['place']['l'] == src for d in rs) and y.args[1].get('k') in ('copy', 'move'):
+            els.append(y.args[1])
+    return els or None
 
 
 def origin_calls(b, operand):
@@ -269,6 +332,36 @@ def origin_vals(b, operand, extra=()):
                 out.add(strip(v))
     pl = operand['place']
     go(pl['l'], [e for e in pl['p'] if e != 'deref'] + list(extra), 0)
+    return out
+
+
+def vals_of(b, v):
+    """origin_vals() for a def-use value (mir.V) that stopped at a local with several definitions (a join of
+    `Continue(x)` / `Break(r)` after `expr?`, of `Some(x)` / `None`, ...): the values it can stand for."""
+    import re as _re
+    if v.kind != 'local':
+        return {v}
+    ps = []
+    rest = []
+    for q in v.projs:
+        if q in ('ref', 'deref'):
+            continue
+        if rest:
+            rest.append(q)
+        elif q.startswith('as '):
+            ps.append({'downcast': q[3:]})
+        elif _re.match(r'^\.\d+$', q):
+            ps.append({'f': int(q[1:])})
+        else:
+            rest.append(q)       # a named field: resolved on what the prefix stands for
+    out = set()
+    base = origin_vals(b, {'k': 'copy', 'place': {'l': v.key, 'p': []}}, extra=ps)
+    if not base:
+        return {v}
+    for x in base:
+        for q in rest:
+            x = x.with_proj(q)
+        out.add(x)
     return out
 
 
